@@ -350,21 +350,43 @@ def drvChpen (d : XDrv) (delta final : PenMap) : Out :=
 inductive TState | unstarted | starting | started
 deriving DecidableEq, Repr
 
-/-- The fields of `struct TickitTerm` the property depends on. -/
+/-- A reply of the terminal, as the driver's handlers see it. -/
+inductive Reply
+  | mode (mode value : Int)
+  | shape (value : Int)
+  | sgr (colon rgb : Bool)
+deriving DecidableEq, Repr
+
+/-- `on_modereport` / `on_decrqss`. -/
+def applyReply (cfg : Cfg) (d : XDrv) : Reply → XDrv
+  | .mode m v => onModereport cfg d m v
+  | .shape v => onDecrqssShape cfg d v
+  | .sgr c r => onDecrqssSgr d c r
+
+/-- The xterm driver's `started()`. -/
+def drvStarted (d : XDrv) : Bool :=
+  d.init.cursorvis ≠ 0 && d.init.cursorblink ≠ 0 && d.init.cursorshape ≠ 0 && d.init.slrm ≠ 0
+
+/-- The fields of `struct TickitTerm` the property depends on.  `tk`: the libtermkey instance (`none`
+    until something needs it; `some started`), `pending`: replies pushed while it was stopped - they stay
+    in its buffer and are read at the next push after it has been started again. -/
 structure Term where
   drv   : XDrv := {}
   state : TState := .unstarted
   pen   : PenMap := PenMap.empty
+  tk    : Option Bool := none
+  pending : List Reply := []
 
 /-- `tickit_term_build` with an output function: the driver is started at once. -/
 def Term.build : Term × Out := ({ state := .starting }, startBytes)
 
 /-- `tickit_term_teardown`. -/
 def Term.teardown (t : Term) : Term × Out :=
-  if t.state ≠ .unstarted then ({ t with state := .unstarted }, drvTeardown t.drv) else (t, [])
+  if t.state ≠ .unstarted then ({ t with state := .unstarted, tk := t.tk.map fun _ => false }, drvTeardown t.drv)
+  else ({ t with tk := t.tk.map fun _ => false }, [])
 
 /-- `tickit_term_pause`. -/
-def Term.pause (t : Term) : Term × Out := (t, drvTeardown t.drv)
+def Term.pause (t : Term) : Term × Out := ({ t with tk := t.tk.map fun _ => false }, drvTeardown t.drv)
 
 /-- Is `attr` skipped by the loop of `tickit_term_setpen` (`isSet`) / `tickit_term_chpen`? -/
 def penSkips (isSet : Bool) (cur pen : PenMap) (a : Attr) : Bool :=
@@ -385,7 +407,23 @@ def Term.putpen (isSet : Bool) (t : Term) (pen : PenMap) : Term × Out :=
 
 /-- `tickit_term_resume`. -/
 def Term.resume (cfg : Cfg) (t : Term) : Term × Out :=
-  (t, drvResume t.drv ++ (if cfg.resumeResendsPen then drvChpen t.drv t.pen t.pen else []))
+  ({ t with tk := t.tk.map fun _ => true },
+   drvResume t.drv ++ (if cfg.resumeResendsPen then drvChpen t.drv t.pen t.pen else []))
+
+/-- `tickit_term_input_push_bytes` with one reply: libtermkey is created (started) if need be; bytes
+    pushed while it is stopped wait in its buffer. -/
+def Term.reply (cfg : Cfg) (t : Term) (r : Reply) : Term :=
+  if t.tk.getD true then
+    { t with drv := (t.pending ++ [r]).foldl (applyReply cfg) t.drv, tk := some true, pending := [] }
+  else { t with pending := t.pending ++ [r] }
+
+/-- `tickit_term_await_started_msec(msec)`, `msec ≥ 0`, with a clock that advances by 1 ms every time it
+    is looked at (the harness's): the state becomes STARTED; libtermkey is created on the way iff the loop
+    reaches its wait, i.e. the driver has not seen all its replies and the budget is at least 1 ms. -/
+def Term.await (t : Term) (msec : Int) : Term :=
+  if t.state = .started then t
+  else { t with state := .started,
+                tk := if !drvStarted t.drv && decide (msec ≥ 1) then some (t.tk.getD true) else t.tk }
 
 def Term.setctl (cfg : Cfg) (t : Term) (c : Option Ctl) (v : Int) : Term × Out × Bool :=
   let r := setctlInt cfg t.drv c v
@@ -401,7 +439,7 @@ deriving DecidableEq, Repr
 
 /-- `setupterm`: await (the state becomes STARTED whatever the replies), four controls, clear. -/
 def setupterm (cfg : Cfg) (top : Top) (t : Term) : Top × Term × Out :=
-  let t0 : Term := { t with state := .started }
+  let t0 : Term := Term.await t ModeLayout.setup_await_msec
   let r1 := if top.useAlt ≠ 0 then Term.setctl cfg t0 (some .altscreen) 1 else (t0, [], true)
   let r2 := Term.setctl cfg r1.1 (some .cursorvis) 0
   let r3 := Term.setctl cfg r2.1 (some .mouse) 2
@@ -422,7 +460,7 @@ inductive Op
   | replyMode (mode value : Int)
   | replyShape (value : Int)
   | replySgr (colon rgb : Bool)
-  | await
+  | await (msec : Int)
   | pause
   | resume
   | teardown
@@ -457,10 +495,10 @@ def Sys.step (cfg : Cfg) (s : Sys) : Op → StepRes
   | .print bytes => { sys := s, out := bytes }
   | .clear => { sys := s, out := clearScreen }
   | .flush => { sys := s }
-  | .replyMode m v => { sys := { s with term := { s.term with drv := onModereport cfg s.term.drv m v } } }
-  | .replyShape v => { sys := { s with term := { s.term with drv := onDecrqssShape cfg s.term.drv v } } }
-  | .replySgr c r => { sys := { s with term := { s.term with drv := onDecrqssSgr s.term.drv c r } } }
-  | .await => { sys := { s with term := { s.term with state := .started } } }
+  | .replyMode m v => { sys := { s with term := Term.reply cfg s.term (.mode m v) } }
+  | .replyShape v => { sys := { s with term := Term.reply cfg s.term (.shape v) } }
+  | .replySgr c r => { sys := { s with term := Term.reply cfg s.term (.sgr c r) } }
+  | .await msec => { sys := { s with term := Term.await s.term msec } }
   | .pause =>
     let r := Term.pause s.term
     { sys := { s with term := r.1 }, out := r.2 }
